@@ -288,7 +288,7 @@ impl Circuit {
 
         // Parse input line
         // The conversion assumes that each party provides one of the inputs in ascending order of their party IDs.
-        let (input_gates, input_wires_num, mut wires_map, mut is_assigned) = {
+        let (input_gates, input_wires_num, input_line) = {
             let (parts, line_str) = parse_line(lines.next())?;
             if parts.len() < 2 {
                 return Err(FromBristolError::MalformedLine(line_str));
@@ -312,15 +312,7 @@ impl Circuit {
             if wires_num - input_wires > lines.len() {
                 return Err(FromBristolError::MalformedLine(line_str));
             }
-            // (the number of input wires is not bounded by the file: a number of wires that cannot be
-            // allocated is an error of the file)
-            // The wires map maps the wires in the Bristol format to the wires in the Garble format,
-            // a wire can only be read after it was assigned:
-            let (Some(wires_map), Some(is_assigned)) = (table(wires_num, 0), table(wires_num, false))
-            else {
-                return Err(FromBristolError::MalformedLine(line_str));
-            };
-            (input_gates, input_wires, wires_map, is_assigned)
+            (input_gates, input_wires, line_str)
         };
 
         // Parse output line
@@ -350,6 +342,15 @@ impl Circuit {
             (output_gates, first_output_wire)
         };
 
+        // The wires map maps the wires in the Bristol format to the wires in the Garble format, a wire
+        // can only be read after it was assigned.
+        // (the number of input wires is not bounded by the file: a number of wires that cannot be
+        // allocated is an error of the file)
+        let (Some(mut wires_map), Some(mut is_assigned)) =
+            (table(wires_num, 0), table(wires_num, false))
+        else {
+            return Err(FromBristolError::MalformedLine(input_line));
+        };
         // The input wires are assigned by the parties:
         let input_wires = wires_map.iter_mut().zip(is_assigned.iter_mut());
         for (i, (wire, is_assigned)) in input_wires.take(input_wires_num).enumerate() {
